@@ -46,6 +46,21 @@ checks = {
    text="The same schedule enumeration built with -race: hand-offs between goroutines go through //go:norace spin gates and shim functions are norace, so the detector's happens-before analysis sees only the library's own synchronisation (real mutexes inside the shim mutex, real goroutine creation, message transfer edges); six scenarios (election + submitters + status pollers, snapshot while applying, membership changes during submissions, Stop/Restart during activity, snapshot installation on a lagging follower, lifecycle calls racing on a fresh node) under every schedule with up to 1 (quick) / 2 (thorough) non-default decisions; any report whose two accesses are both in library code is a violation.",
    technique="schedule enumeration under the Go race detector with detector-invisible scheduler hand-offs",
    note="Trusted base: Go race detector (bounded access history per word), shims. Reports with a harness-side access are ignored (the harness reads library memory between hand-offs by design).", ref="4/C20"),
+ "C09": dict(level="model_checking", engine="cluster",
+   text="Cluster search with a membership alphabet (AddServer non-voter/voter, promotion, RemoveServer of any member including the leader, submitted to any node believing to lead) over 1-3 bootstrapped voters plus spare nodes started empty, with timeouts, partitions, late replies, crashes; C01/C02/C07 monitors plus: every leader must have been elected by a majority of the voters of its own configuration, every commit-index advance of a leader must be backed by copies on a majority of voters of the configuration in force, membership futures must report a committed configuration containing the requested change. A classifier marks violations that occur while a leader acts on a configuration superseded by a committed one.",
+   technique="explicit-state DFS over the real code with a membership alphabet and quorum monitors", ref="4/C09"),
+ "C12": dict(level="fault_enumeration", engine="crash",
+   text="Every sequence of up to 3 (quick) / 4 (thorough) log operations (append 1/2/3 entries of all types and data shapes, truncate/compact/discard at every valid index, close+reopen) on the real file-backed log over an intercepting os layer; for the last operation of every program a crash before every mutating call and after every byte prefix of every write (all prefixes up to 16 bytes, a fixed set beyond), then NewLog+Open+Replay on the crashed directory, comparison with the in-memory reference model (before / after / before+prefix of the in-flight append), a fixed continuation and a second reopen; one level of nesting.",
+   technique="exhaustive crash-point and torn-write enumeration over all bounded operation sequences against a reference model",
+   note="Fault model: process crash (completed calls durable, in-flight write leaves any byte prefix, no reordering); power loss is not modelled. Trusted base: vos interception layer, reference model (sim.MemLog).", ref="4/C12"),
+ "C13": dict(level="fault_enumeration", engine="crash",
+   text="All sequences of up to 4 SetState calls over 12 values, and snapshot-storage programs (NewSnapshotFile + 0-3 writes + Close/Discard, SnapshotFile+read) of up to 4 operations with 0..40 completed snapshots already present, payloads 0 B / 10 B / 40 KiB; every crash point as in C12; recovery = first-attempt constructors, then State() / SnapshotFile(): last returned or in-flight value; newest closed snapshot complete with matching metadata, never a partial one.",
+   technique="exhaustive crash-point enumeration over bounded operation sequences on the real storages",
+   note="Process-crash fault model; trusted base: vos interception layer.", ref="4/C13"),
+ "C18": dict(level="exploration", engine="api",
+   text="Every single call, ordered pair (sequential and concurrent) and lifecycle-led triple (thorough: any third call, 4-call lifecycle sequences) from a 24-call menu of the public API (Bootstrap variants, Start/Restart/Stop, SubmitOperation of every type incl. an invalid one, nil/non-nil data, zero timeout, AddServer/RemoveServer incl. invalid ids and self, Status, Configuration, State/OperationType rendering) on a node in each of 9 base states (never started, follower, leader before/after first commit, pre-candidate, candidate, stopped, stopped-then-restarted, removed), followed by default cluster activity and an election timeout on every node; oracle: no panic in any goroutine, no process exit through the fatal path, every call returns, membership futures of changes that committed under the submitting leader resolved with the right configuration.",
+   technique="exhaustive enumeration of bounded API call sequences over base states on the real code under the controlled scheduler",
+   note="Canonical goroutine interleaving inside a step (schedule enumeration of API calls is in C20's scenarios); futures are polled, not awaited through the real select.", ref="4/C18"),
 }
 
 not_applicable = {}
@@ -69,6 +84,8 @@ m = {
     "kind_free_text": "stateful depth-first search over environment events of a simulated cluster running the real library under a cooperative scheduler (overlay-instrumented build)"},
    {"name": "handler", "path": "mc/cmd/check/c06.go + mc/sim/single.go", "serves_properties": ["C06"], "kind_free_text": "exhaustive small-scope input enumeration against exported handlers of a real node booted from preloaded storage"},
    {"name": "sched", "path": "mc/sched", "serves_properties": ["C10", "C20"], "kind_free_text": "stateless enumeration of goroutine schedules of fixed scenarios up to a bound on non-default decisions (controlled cooperative scheduler; optionally under -race)"},
+   {"name": "crash", "path": "mc/crashfs + shim/vos", "serves_properties": ["C12", "C13"], "kind_free_text": "crash-point / torn-write enumeration of operation sequences on the real file-backed storages through an intercepting os layer"},
+   {"name": "api", "path": "mc/cmd/check/c18.go + mc/sim/api.go", "serves_properties": ["C18"], "kind_free_text": "exhaustive bounded API-call sequences from constructed base states"},
    {"name": "codec", "path": "mc/codec", "serves_properties": ["C19"], "kind_free_text": "exhaustive enumeration of message/record domains through the real gRPC transport and file storages"},
  ],
  "checks": [],
